@@ -80,7 +80,8 @@ func (c *Conn) CloseRead(ctx context.Context) context.Context {
 		defer c.close()
 		_, _, err := c.Reader(ctx)
 		if err == nil {
-			c.Close(StatusPolicyViolation, "unexpected data message")
+			// Not c.Close as that waits for this very goroutine to exit.
+			c.closeHandshake(StatusPolicyViolation, "unexpected data message")
 		}
 	}()
 	return ctx
